@@ -143,5 +143,21 @@ theorem revenueMatches_handleLog (env : Env) (ts : Addr) (s : State) (l : Log) (
     · simp only [hn, if_false]; exact h n
 
 
+/-- what `feeTx` returning `some ts` means on an accepted transition -/
+theorem feeTx_some {env : Env} {s s' : State} {op : Op} {gu : Nat} {ts : Addr}
+    (h : feeTx { env := env, pre := s, op := op, ok := true, post := s' } gu = some ts) :
+    s.turnstile = some ts ∧ s.params.enabled = true ∧ gu ≠ 0 ∧ Wiring env ts := by
+  unfold feeTx at h
+  split at h
+  · rename_i ts' hts
+    split at h
+    · rename_i hc
+      injection h with h; subst h
+      simp only [Bool.true_and, Bool.and_eq_true, bne_iff_ne, ne_eq] at hc
+      exact ⟨hts, hc.1.1, hc.1.2, wiring_of_distinct hc.2⟩
+    · cases h
+  · cases h
+
+
 end Csr
 end CV
